@@ -6,12 +6,16 @@ Open Scope string_scope.
 
 Definition R (s : string) : string := repr_body SQ s.
 
+(* a text without its last character *)
+Fixpoint chop (s : string) : string :=
+  match s with EmptyString => "" | String c EmptyString => "" | String c r => String c (chop r) end.
+
 Definition seg_of (it : witem) : seg :=
   match it with
   | IField ws k v => SField ws k v
   | IRefs ws k o sep c ids => SRefs ws k o sep c ids
   | IChildren ws k o sep c ns => SChildren ws k o sep c (List.length ns)
-  | IRaw s => SField "" "" ""            (* excluded by wf_node *)
+  | IRaw s => SRaw (chop s)              (* a free-text piece  text;  *)
   | IInert s => SField "" "" ""          (* excluded by wf_node *)
   end.
 
@@ -50,7 +54,7 @@ Definition top_pv (n : wnode) : pv :=
   end.
 
 (* domain of the text-level theorem: plain keys, values, ids; layout strings made of line breaks, tabs, blanks, ( ) , ;
-   no free text with braces or separators (IRaw / IInert), no apostrophe *)
+   free text (IRaw: e.g. an HTML documentation) with closed quoted texts and no ';' or brace outside them *)
 Fixpoint wf_node (n : wnode) : bool :=
   match n with
   | WNode id nm ty its tl =>
@@ -60,10 +64,32 @@ Fixpoint wf_node (n : wnode) : bool :=
             | [] => true
             | it :: r =>
                 match it with
-                | IRaw _ | IInert _ => false
+                | IInert _ => false
+                | IRaw s => String.eqb s (chop s ++ ";") && raw_ok (chop s)
                 | IChildren ws k o sep c ns =>
                     seg_ok (seg_of it) && (fix each (l : list wnode) : bool := match l with [] => true | x :: t => wf_node x && each t end) ns
                 | _ => seg_ok (seg_of it)
                 end && items r
             end) its
   end.
+
+(* braces: none in ids, names, types, keys, reference ids and unquoted values; a "quoted value" may hold them *)
+Fixpoint nbq_node (n : wnode) : bool :=
+  match n with
+  | WNode id nm ty its tl =>
+      nobrace id && nobrace (name_text nm) && nobrace ty
+      && (fix items (l : list witem) : bool :=
+            match l with
+            | [] => true
+            | it :: r =>
+                match it with
+                | IField _ k v => nobrace k && (prefixb dq v || nobrace v)
+                | IRefs _ k _ _ _ ids => nobrace k && forallb nobrace ids
+                | IChildren _ k _ _ _ ns => nobrace k && (fix each (l : list wnode) : bool := match l with [] => true | x :: t => nbq_node x && each t end) ns
+                | _ => true
+                end && items r
+            end) its
+  end.
+
+(* str(bytes) quotes with an apostrophe unless the bytes hold an apostrophe and no double quote *)
+Definition quote_ok (s : string) : bool := negb (no_char DQ s) || no_char SQ s.
